@@ -8,6 +8,9 @@ use rusty_variant::Variant;
 
 use crate::core::{CastVariant, LintError, LintErrorPos};
 
+/// The longest string a constant expression may build.
+const MAX_STRING_LENGTH: usize = 32767;
+
 /// A lookup map of resolved constant values.
 pub trait ConstLookup {
     /// Gets the value ([Variant]) of a constant.
@@ -76,6 +79,14 @@ where
             Expression::BinaryExpression(op, left, right, _) => {
                 let v_left = self.eval_const(left)?;
                 let v_right = self.eval_const(right)?;
+                if let (Operator::Plus, Variant::VString(s_left), Variant::VString(s_right)) =
+                    (op, &v_left, &v_right)
+                {
+                    // a string holds at most 32767 characters
+                    if s_left.len() + s_right.len() > MAX_STRING_LENGTH {
+                        return Err(LintError::OutOfStringSpace.at(right));
+                    }
+                }
                 if *op == Operator::And || *op == Operator::Or {
                     // like at run time, the operands are converted to integers first,
                     // or both to long if one of them does not fit an integer
